@@ -53,6 +53,12 @@ class MySQLQueryBuilder(QueryBuilder):
         )
         self._modifiers: list[str] = []
 
+    def _limit_sql(self, ctx: SqlContext) -> str:
+        if self._limit is None and self._offset is not None:
+            # MySQL has no OFFSET without LIMIT; the manual's idiom for "all remaining rows" is the largest BIGINT
+            return " LIMIT 18446744073709551615"
+        return super()._limit_sql(ctx)
+
     def _on_conflict_sql(self, ctx: SqlContext) -> str:
         ctx = ctx.copy(
             as_keyword=True,
